@@ -20,7 +20,7 @@ type c12Scenario struct {
 	nNodes        int
 	places        []int    // node index of each connection in the chain (2 or 3 connections)
 	oldEvent      []string // what each displaced session does: ping | subscribe | disconnect | close | nothing
-	when          []string // before-gossip | after-gossip | at-setup-point | at-shutdown-point
+	when          []string // before-gossip | after-gossip | at-setup-point | at-setup-lookup-point | at-shutdown-point
 	emptyClientID bool
 }
 
@@ -85,6 +85,9 @@ func c12Run(c *fw.Ctx, idx int, sc c12Scenario) {
 		if k > 0 && sc.when[k-1] == "at-setup-point" {
 			reached, release = kit.BlockAt("setup.afterDeleteOld", id)
 		}
+		if k > 0 && sc.when[k-1] == "at-setup-lookup-point" {
+			reached, release = kit.BlockAt("setup.afterLookupOld", id)
+		}
 		// precondition of the property: the accepting node has learned of the earlier session
 		cl.Quiesce()
 		var cc *kit.Client
@@ -124,8 +127,24 @@ func c12Run(c *fw.Ctx, idx int, sc c12Scenario) {
 			select {
 			case <-reached:
 				c.Observe("setup_point_reached", 1)
-				actOld() // between "old record deleted" and "new record created"
+				actOld() // between "old record deleted" and "new record created" (or between lookup and deletion)
 				time.Sleep(20 * time.Millisecond)
+				if sc.when[k-1] == "at-setup-lookup-point" && (sc.oldEvent[k-1] == "close" || sc.oldEvent[k-1] == "disconnect") {
+					// the earlier session's own teardown completes (and is gossiped) while the accepting
+					// goroutine still holds the record it looked up
+					oldNode, oldID := nodes[sc.places[k-1]], sessIDs[k-1]
+					pollGone(5*time.Second, func() []string {
+						cl.Quiesce()
+						if oldNode.Local.Get(oldID) != nil {
+							return []string{"old session still registered"}
+						}
+						if _, err := node.State.SessionMetadatas().Get(oldID); err == nil {
+							return []string{"old record still listed"}
+						}
+						return nil
+					})
+					c.Observe("old_teardown_completed_inside_setup", 1)
+				}
 			case <-time.After(kit.DefaultWait):
 				// no earlier record was found by setup: the point is not on this path
 				c.Observe("setup_point_not_reached", 1)
@@ -362,10 +381,10 @@ func addOne(a []int) []int {
 }
 
 func runC12(c *fw.Ctx) {
-	c.Rule = "pairs and chains of 3 connections sharing a client identifier on 1-3 nodes (same node / different nodes), gossip delivered by an explicit pump; each displaced session performs one event (PINGREQ, SUBSCRIBE, DISCONNECT, close, nothing) placed before the takeover's gossip, after it, BETWEEN 'old record deleted' and 'new record created' in the accepting node's setup (hook H2, the accepting goroutine is held there), or with its own teardown held between lookup and delete (hook H2) while the gossip is delivered. In 3-node scenarios that leave node 3 unused, that node receives the whole scenario's gossip at the end in reverse order. Oracle: every CONNECT is accepted; after quiescence every node resolves the identifier to the newest session, lists exactly its subscription and none of the displaced ones; the displaced session's next PINGREQ gets no PINGRESP and its connection is closed; a publish to the newest session's filter reaches it and not the others. Also: the newer session leaves (DISCONNECT / connection loss) before the displaced one's keep-alive exchange, which must still end the displaced one. Quick: the full grid of pairs (placement x event x timing) and seeded chains; thorough: more chains. distinct = scenario parameters; non-trivial = all"
+	c.Rule = "pairs and chains of 3 connections sharing a client identifier on 1-3 nodes (same node / different nodes), gossip delivered by an explicit pump; each displaced session performs one event (PINGREQ, SUBSCRIBE, DISCONNECT, close, nothing) placed before the takeover's gossip, after it, BETWEEN 'old record deleted' and 'new record created' in the accepting node's setup (hook H2, the accepting goroutine is held there), between the accepting node's lookup of the earlier record and its removal (the earlier session's own teardown completes in between), or with its own teardown held between lookup and delete (hook H2) while the gossip is delivered. In 3-node scenarios that leave node 3 unused, that node receives the whole scenario's gossip at the end in reverse order. Oracle: every CONNECT is accepted; after quiescence every node resolves the identifier to the newest session, lists exactly its subscription and none of the displaced ones; the displaced session's next PINGREQ gets no PINGRESP and its connection is closed; a publish to the newest session's filter reaches it and not the others. Also: the newer session leaves (DISCONNECT / connection loss) before the displaced one's keep-alive exchange, which must still end the displaced one. Quick: the full grid of pairs (placement x event x timing) and seeded chains; thorough: more chains. distinct = scenario parameters; non-trivial = all"
 	c.Assume("the accepting node has learned of the earlier session (gossip barrier before each CONNECT), as the property requires")
 	events := []string{"ping", "subscribe", "disconnect", "close", "nothing"}
-	whens := []string{"before-gossip", "after-gossip", "at-setup-point", "at-shutdown-point"}
+	whens := []string{"before-gossip", "after-gossip", "at-setup-point", "at-setup-lookup-point", "at-shutdown-point"}
 	scen := []c12Scenario{}
 	placements := []struct {
 		n int
